@@ -23,6 +23,7 @@ import (
 	"fmt"
 	"math/big"
 	"sort"
+	"strings"
 	"time"
 
 	sdk "github.com/cosmos/cosmos-sdk/types"
@@ -53,10 +54,116 @@ type clIncState struct {
 	dust     [2]*big.Int // spread rewards: dust budget per pool denom
 	nextDen  int
 	deadPaid map[string]*big.Int // paid to positions that no longer exist, per denom
+	t0       time.Time           // block time at pool creation (time zero of the model)
 }
 
 func newIncState() *clIncState {
 	return &clIncState{bound: map[uint64]map[string]*big.Rat{}, paid: map[uint64]map[string]*big.Int{}, join: map[uint64]time.Time{}, deadPaid: map[string]*big.Int{}}
+}
+
+
+func showCoins(c sdk.Coins) string {
+	if len(c) == 0 {
+		return "-"
+	}
+	var ps []string
+	for _, x := range c {
+		ps = append(ps, fmt.Sprintf("%s=%s", x.Denom, x.Amount))
+	}
+	return strings.Join(ps, "+")
+}
+
+func showDecCoins(c sdk.DecCoins) string {
+	if len(c) == 0 {
+		return "-"
+	}
+	var ps []string
+	for _, x := range c {
+		ps = append(ps, fmt.Sprintf("%s=%s", x.Denom, x.Amount.BigInt()))
+	}
+	return strings.Join(ps, "+")
+}
+
+func uptimeIndex(d time.Duration) int {
+	for i, u := range cltypes.SupportedUptimes {
+		if u == d {
+			return i
+		}
+	}
+	return -1
+}
+
+// dumpIncImpl: the uptime-incentive state of the pool read from the real stores (compared with the Lean model after
+// every op): block time and LastLiquidityUpdate (ns since pool creation), the six uptime accumulators (total shares,
+// value), every stored tick's six uptime trackers, the incentive records (remaining), every live position's six
+// accumulator records, GetClaimableIncentives of every position (collected / forfeited), incentive address balances.
+func (e *clEngine) dumpIncImpl() string {
+	k := e.h.App.ConcentratedLiquidityKeeper
+	p := e.pool()
+	accs, err := k.GetUptimeAccumulators(e.ctx(), e.poolId)
+	if err != nil {
+		return "err-accums"
+	}
+	var as []string
+	for i, a := range accs {
+		as = append(as, fmt.Sprintf("%d:%s:%s", i, a.GetTotalShares().BigInt(), showDecCoins(a.GetValue())))
+	}
+	ticks, _ := k.GetAllInitializedTicksForPool(e.ctx(), e.poolId)
+	var ts []string
+	for _, t := range ticks {
+		var cs []string
+		for _, tr := range t.Info.UptimeTrackers.List {
+			cs = append(cs, showDecCoins(tr.UptimeGrowthOutside))
+		}
+		ts = append(ts, fmt.Sprintf("%d:%s", t.TickIndex, strings.Join(cs, "|")))
+	}
+	recs, _ := k.GetAllIncentiveRecordsForPool(e.ctx(), e.poolId)
+	sort.Slice(recs, func(i, j int) bool {
+		ui, uj := uptimeIndex(recs[i].MinUptime), uptimeIndex(recs[j].MinUptime)
+		if ui != uj {
+			return ui < uj
+		}
+		return recs[i].IncentiveId < recs[j].IncentiveId
+	})
+	var is []string
+	for _, r := range recs {
+		is = append(is, fmt.Sprintf("%d:%d:%s:%s", r.IncentiveId, uptimeIndex(r.MinUptime), r.IncentiveRecordBody.RemainingCoin.Denom, r.IncentiveRecordBody.RemainingCoin.Amount.BigInt()))
+	}
+	ids := make([]uint64, 0, len(e.pos))
+	for id := range e.pos {
+		ids = append(ids, id)
+	}
+	sort.Slice(ids, func(i, j int) bool { return ids[i] < ids[j] })
+	var rs, cs []string
+	for _, id := range ids {
+		name := string(cltypes.KeyPositionId(id))
+		var one []string
+		for i, a := range accs {
+			rec, err := a.GetPosition(name)
+			if err != nil {
+				one = append(one, fmt.Sprintf("%d:none", i))
+			} else {
+				one = append(one, fmt.Sprintf("%d:%s:%s:%s", i, rec.NumShares.BigInt(), showDecCoins(rec.AccumValuePerShare), showDecCoins(rec.UnclaimedRewardsTotal)))
+			}
+		}
+		rs = append(rs, fmt.Sprintf("%d>%s", id, strings.Join(one, ";")))
+		var c, f sdk.Coins
+		var cerr error
+		if !catch(func() { c, f, cerr = k.GetClaimableIncentives(e.ctx(), id) }) || cerr != nil {
+			cs = append(cs, fmt.Sprintf("%d:err", id))
+		} else {
+			cs = append(cs, fmt.Sprintf("%d:%s/%s", id, showCoins(c), showCoins(f)))
+		}
+	}
+	bal := sdk.Coins{}
+	for _, c := range e.h.App.BankKeeper.GetAllBalances(e.ctx(), p.GetIncentivesAddress()) {
+		if strings.HasPrefix(c.Denom, "inc") {
+			bal = bal.Add(c)
+		}
+	}
+	return fmt.Sprintf("ok now=%d last=%d A[%s] T[%s] I[%s] R[%s] C[%s] B[%s]",
+		e.h.Ctx.BlockTime().Sub(e.inc.t0).Nanoseconds(), p.GetLastLiquidityUpdate().Sub(e.inc.t0).Nanoseconds(),
+		strings.Join(as, " "), strings.Join(ts, " "), strings.Join(is, " "), strings.Join(rs, " "), strings.Join(cs, " "), showCoins(bal))
 }
 
 func ratOfDec(raw *big.Int) *big.Rat { return new(big.Rat).SetFrac(raw, pow10(18)) }
@@ -153,12 +260,16 @@ func (e *clEngine) advanceTime(d time.Duration) {
 	e.h.Ctx = e.h.Ctx.WithBlockTime(t1).WithBlockHeight(e.h.Ctx.BlockHeight() + 1)
 	e.inc.synced = false
 	e.o.Count("time.advance")
+	e.o.Emit(fmt.Sprintf("clp advance %d", int64(d)), "ok", true)
 	// sometimes bring the accumulators to now right away (as any pool-touching message would)
 	if e.r.Intn(2) == 0 {
 		k := e.h.App.ConcentratedLiquidityKeeper
 		if err := e.atomic(func(ctx sdk.Context) error { return k.UpdatePoolUptimeAccumulatorsToNow(ctx, e.poolId) }); err == nil {
 			e.inc.synced = true
 			e.o.Count("time.synced")
+			e.o.Emit("clp sync", "ok", true)
+		} else {
+			e.o.Emit("clp sync", "err", true)
 		}
 	}
 }
@@ -189,10 +300,13 @@ func (e *clEngine) createIncentive() {
 		rec, err = k.CreateIncentive(ctx, e.poolId, creator, sdk.NewCoin(denom, osmomath.NewIntFromBigInt(amt)), sd(rate), start, upt)
 		return err
 	})
+	line := fmt.Sprintf("clp incentive %d %s %s %s %d %d", rec.IncentiveId, denom, amt, rate, start.Sub(e.inc.t0).Nanoseconds(), uptimeIndex(upt))
 	if err != nil {
 		e.o.Count("incentive.err")
+		e.o.Emit(fmt.Sprintf("clp incentive 0 %s %s %s %d %d", denom, amt, rate, start.Sub(e.inc.t0).Nanoseconds(), uptimeIndex(upt)), "err", true)
 		return
 	}
+	e.o.Emit(line, "ok", true)
 	e.inc.nextDen++
 	e.inc.synced = true // CreateIncentive syncs the accumulators first
 	e.inc.incs = append(e.inc.incs, &clInc{id: rec.IncentiveId, denom: denom, rate: rate, start: start, uptime: upt, initial: amt,
@@ -221,10 +335,13 @@ func (e *clEngine) collectIncentivesOp() {
 		return err
 	})
 	e.o.Count("collect.incentives")
+	iline := fmt.Sprintf("clp icollect acc%d %d", q.owner, q.id)
 	if err != nil {
+		e.o.Emit(iline, "err", true)
 		e.o.Fail("rewards:collect-incentives-failed", fmt.Sprintf("op %d pos %d: %v", e.opn, q.id, err))
 		return
 	}
+	e.o.Emit(iline, fmt.Sprintf("ok c=%s f=%s", showCoins(resp.CollectedIncentives), showCoins(resp.ForfeitedIncentives)), true)
 	e.inc.synced = true
 	if !resp.CollectedIncentives.Equal(c) || !resp.ForfeitedIncentives.Equal(forf) {
 		e.o.Fail("incentives:collected!=claimable-query", fmt.Sprintf("op %d pos %d got %s/%s query %s/%s", e.opn, q.id, resp.CollectedIncentives, resp.ForfeitedIncentives, c, forf))
